@@ -4,6 +4,7 @@ from lib import Case, hx, unhx, enc_attrs, doc_case
 import exprref as R
 from exprref import Gen, NoValue, Pcg
 
+DOC_MODEL = True     # every generated document also runs through the composed Coq model of the whole transform
 RULE = ('expression trees to depth 8 over numbers (exactly representable and up-to-7-digit decimals), scalar / list / string '
         'variables incl. indirection chains, unary minus, * / % + -, the six comparison and three logical word operators, '
         'parentheses, comma lists and calls of all 53 built-in functions, rendered with minimal or redundant parentheses and '
